@@ -6,11 +6,13 @@
 package vos
 
 import (
+	"io"
 	"io/fs"
-	"strings"
 	"os"
+	"strings"
 	"sync"
 	"sync/atomic"
+	"time"
 
 	"verifh/vsched"
 )
@@ -293,3 +295,75 @@ func IsNotExist(err error) bool                     { return os.IsNotExist(err) 
 func IsExist(err error) bool                        { return os.IsExist(err) }
 func IsPermission(err error) bool                   { return os.IsPermission(err) }
 func Chmod(name string, m FileMode) error           { return os.Chmod(name, m) }
+
+// Truncate changes the size of the named file (a mutating step).
+func Truncate(name string, size int64) error {
+	point("truncate")
+	begin()
+	err := os.Truncate(name, size)
+	if err == nil {
+		mutated("truncate", name)
+	} else {
+		abort()
+	}
+	return err
+}
+
+func Link(oldname, newname string) error {
+	begin()
+	err := os.Link(oldname, newname)
+	if err == nil {
+		mutated("link", newname)
+	} else {
+		abort()
+	}
+	return err
+}
+
+func Symlink(oldname, newname string) error {
+	begin()
+	err := os.Symlink(oldname, newname)
+	if err == nil {
+		mutated("symlink", newname)
+	} else {
+		abort()
+	}
+	return err
+}
+
+func CreateTemp(dir, pattern string) (*File, error) {
+	begin()
+	f, err := os.CreateTemp(dir, pattern)
+	if err != nil {
+		abort()
+		return nil, err
+	}
+	mutated("create", f.Name())
+	return &File{f: f, path: f.Name()}, nil
+}
+
+func Chtimes(name string, a, m time.Time) error { return os.Chtimes(name, a, m) }
+func Chown(name string, uid, gid int) error     { return os.Chown(name, uid, gid) }
+func Readlink(name string) (string, error)      { return os.Readlink(name) }
+func SameFile(a, b FileInfo) bool               { return os.SameFile(a, b) }
+func DirFS(dir string) fs.FS                    { return os.DirFS(dir) }
+func Environ() []string                         { return os.Environ() }
+func Setenv(k, v string) error                  { return os.Setenv(k, v) }
+func Unsetenv(k string) error                   { return os.Unsetenv(k) }
+func Executable() (string, error)               { return os.Executable() }
+func Getuid() int                               { return os.Getuid() }
+func UserCacheDir() (string, error)             { return os.UserCacheDir() }
+func UserConfigDir() (string, error)            { return os.UserConfigDir() }
+
+func (f *File) Chmod(m FileMode) error               { return f.f.Chmod(m) }
+func (f *File) SetDeadline(t time.Time) error        { return f.f.SetDeadline(t) }
+func (f *File) Readdirnames(n int) ([]string, error) { return f.f.Readdirnames(n) }
+func (f *File) Readdir(n int) ([]FileInfo, error)    { return f.f.Readdir(n) }
+func (f *File) ReadFrom(r io.Reader) (int64, error) {
+	b, err := io.ReadAll(r)
+	if err != nil {
+		return 0, err
+	}
+	n, err := f.Write(b)
+	return int64(n), err
+}
